@@ -165,7 +165,9 @@ impl TraceOut {
         if let Some(k) = &mut self.keep {
             k.push(v.clone());
         }
-        writeln!(self.f, "{}", v).expect("write trace");
+        // line separators other than LF inside strings would split the line for readers that honour them (TLC's NDJSON reader)
+        let line = v.to_string().replace('\u{85}', "\\u0085").replace('\u{2028}', "\\u2028").replace('\u{2029}', "\\u2029");
+        writeln!(self.f, "{}", line).expect("write trace");
         self.events += 1;
     }
 }
